@@ -148,6 +148,9 @@ OuterLoop:
 					break ArgLoop
 				case 'p':
 					// Pointer address, new in Lua 5.4
+					if len(args) <= j {
+						return "", errNotEnoughValues
+					}
 					switch v := values[j]; v.Type() {
 					case rt.BoolType, rt.FloatType, rt.IntType, rt.NilType:
 						outFormat[i] = 's'
@@ -198,6 +201,10 @@ OuterLoop:
 					// Unrecognised verbs
 					return "", errors.New("invalid format string")
 				}
+			}
+			if i >= len(format) {
+				// The format string ends in the middle of a conversion
+				return "", errors.New("invalid format string")
 			}
 			args[j] = arg
 			j++
